@@ -300,7 +300,7 @@ def _run_one_batch(binary, profile, verif_seed, start, count, timeout, use_bitma
 def run_batches(binary, profile, verif_seed, total_runs, batch_size, workers=None, batch_timeout=900,
                 use_bitmap=False, stop_on_violation=True, first_run=0, deadline=None, crash_note_ops=()):
     """Executes runs [first_run, first_run+total_runs) in parallel batches; aggregates in index order."""
-    workers = workers or min(16, os.cpu_count() or 4)
+    workers = workers or int(os.environ.get('VERIF_WORKERS', '0') or 0) or min(16, os.cpu_count() or 4)
     res = BatchResult()
     starts = list(range(first_run, first_run + total_runs, batch_size))
     stop = {'flag': False}
